@@ -116,6 +116,16 @@ def _r1_output(repo, report, rule):
                 ok_c = (is_set and over_all and len(one) == 1 and len(applied) == 1) if (over_all and applied) else None
                 if over_all and applied and not is_set:
                     ok_c = False
+            if len(coll) == 1 and one:
+                # names that disagree (-o x.fasta -p y.fastq): without an explicit decision the serial writer lets dnaio decide per
+                # file NAME (FASTA, FASTQ), the proxied writer has nameless buffers and decides by the qualities (FASTQ, FASTQ)
+                els = one[0].orelse
+                decided = any(isinstance(x, ast.Raise) for st_ in els for x in ast.walk(st_)) or any(
+                    isinstance(x, ast.Assign) and isinstance(x.targets[0], ast.Subscript) and isinstance(x.targets[0].slice, ast.Constant) and x.targets[0].slice.value == "fileformat" for st_ in els for x in ast.walk(st_))
+                report.ob(rule, "OutputFiles.open_record_writer: file names that disagree about the format", decided, facts={"decision_when_not_exactly_one_format": "explicit" if decided else "left to the writer"},
+                          expected="with two names of different formats the run is refused, or the format(s) are fixed explicitly so that the serial and the proxied writer agree", loc=repo.loc(one[0]),
+                          fact_key=None if decided else "names-disagree",
+                          why="" if decided else "-o x.fasta -p y.fastq: with one core R1 is written as FASTA and R2 as FASTQ (dnaio looks at each file name), with two cores both are FASTQ (in-memory buffers have no name)")
             report.ob(rule, "OutputFiles.open_record_writer: one format for all paths of a writer", ok_c, facts=facts_c,
                       expected="formats = {detect_format_from_name(p) for p in paths if p is not None}; applied iff exactly one distinct format", loc=repo.loc(fn),
                       why="" if ok_c is not False else "two output files with the same extension must give one format; with a list (or per-path decision) '-o a.fasta -p b.fasta' is left without an explicit format and the proxied writer falls back to FASTQ")
@@ -268,10 +278,11 @@ def r2_fasta(repo, report):
         forced = "'fasta'" in fmt
         if forced:
             seen_force = True
-            ok = r.valuation.get("truthy:FORCE_FASTA") is True and r.valuation.get("eq:PATHS[0]:'-'") is True and r.valuation.get("sign:len(PATHS)-1") == 0
+            stdout = (r.valuation.get("eq:PATHS[0]:'-'") is True and r.valuation.get("sign:len(PATHS)-1") == 0) or any(k.replace(" ", "") in ("eq:(None):PATHS", "eq:PATHS:(None)", "eq:(None,):PATHS", "eq:PATHS:(None,)") and v is True for k, v in r.valuation.items())
+            ok = r.valuation.get("truthy:FORCE_FASTA") is True and stdout
             if not ok:
                 bad.append(r.describe()["valuation"])
-    report.ob("C19.R2", "OutputFiles.open_record_writer: --fasta", not bad and seen_force, facts={"forced_outside_stdout": bad[:2]}, expected="fileformat='fasta' is forced only if force_fasta and the single path is '-'", loc=repo.loc(fn),
+    report.ob("C19.R2", "OutputFiles.open_record_writer: --fasta", not bad and seen_force, facts={"forced_outside_stdout": bad[:2]}, expected="fileformat='fasta' is forced only if force_fasta and the single path is '-' (or missing, which means standard output)", loc=repo.loc(fn),
               why="" if not bad else "--fasta also changes the format of a named output file")
     fn2, rows2 = _writer_rows(repo, "open_stdout_record_writer")
     bad = []
@@ -288,7 +299,29 @@ def r2_fasta(repo, report):
     # cli passes --fasta only to the sinks that may write to stdout
     m = repo.func("cli", "make_pipeline_from_args")
     uses = [src(k.value) for x in calls(m) for k in x.keywords if k.arg == "force_fasta"]
-    report.ob("C19.R2", "builder passes --fasta to the final single-end writers", uses == ["args.fasta", "args.fasta"], facts={"force_fasta_arguments": uses}, expected=["args.fasta", "args.fasta"], loc=repo.loc(m))
+    # every writer of the MAIN output (the one that goes to standard output without -o): open_stdout_record_writer(...) and
+    # open_record_writer(args.output ...) / open_record_writer(*[args.output, ...]) calls
+    from ..repo import expand
+    finals = []
+    for x in calls(m):
+        cn = chain(x.func) or ""
+        if not cn.endswith((".open_record_writer", ".open_stdout_record_writer")):
+            continue
+        argt = " ".join(src(expand(m, a.value if isinstance(a, ast.Starred) else a)) for a in x.args)
+        for a in x.args:
+            nm = a.value if isinstance(a, ast.Starred) else a
+            if isinstance(nm, ast.Name):  # a local with several bindings: look at all of them
+                scope = x
+                while scope is not None and not isinstance(scope, (ast.FunctionDef, ast.Lambda)):
+                    scope = getattr(scope, "_parent", None)
+                from ..repo import walk_no_nested
+                argt += " " + " ".join(src(n_.value) for n_ in walk_no_nested(scope or m) if isinstance(n_, ast.Assign) and any(isinstance(t, ast.Name) and t.id == nm.id for t in n_.targets))
+        if cn.endswith(".open_stdout_record_writer") or "args.output" in argt:
+            finals.append(x)
+    missing = [src(x)[:90] for x in finals if [src(k.value) for k in x.keywords if k.arg == "force_fasta"] != ["args.fasta"]]
+    report.ob("C19.R2", "builder passes --fasta to every writer of the main output", not missing and len(finals) >= 3 and len(uses) == len(finals), facts={"main_output_writers": len(finals), "without_force_fasta": missing, "force_fasta_arguments": uses},
+              expected="force_fasta=args.fasta on the single-end writers and on the paired-end sink's writer (interleaved output may go to standard output)", loc=repo.loc(m),
+              why=(f"{missing[0]} does not receive --fasta: with this writer on standard output the option is ignored" if missing else ""))
 
 
 def r4_interleaved(repo, report):
